@@ -232,13 +232,16 @@ class Module:
             raise AnalysisError('%s does not parse: %s' % (relpath, e))
         self.inlined_aliases = _inline_callable_aliases(self.tree)
         self.inlined_regexes = _inline_new_compiled_regexes(self.tree, name)
+        self.reparent()
+        self.scope = None       # name -> binding, built lazily
+        self.stars = []
+        self.sha = hashlib.sha256(src.encode()).hexdigest()
+
+    def reparent(self):
         for n in ast.walk(self.tree):
             for c in ast.iter_child_nodes(n):
                 c._parent = n
         self.tree._parent = None
-        self.scope = None       # name -> binding, built lazily
-        self.stars = []
-        self.sha = hashlib.sha256(src.encode()).hexdigest()
 
     @property
     def package(self):
@@ -480,9 +483,15 @@ class Repo:
             m = Module(name, rel, src, is_pkg)
             self.modules[name] = m
             self.by_relpath[rel] = m
+        # a new record class that only names the components of a returned tuple is read as that tuple (sa/destructure.py)
+        from . import destructure as _destructure
+        self.destructured = _destructure.destructure(self.modules)
+        if self.destructured:
+            for m in self.modules.values():
+                m.reparent()
         # identifiers that were merely renamed are mapped back to their pinned names before any table is built (sa/rename.py)
         from . import rename as _rename
-        self.renames = _rename.canonicalise(self.modules, fingerprint_of)
+        self.renames = _rename.canonicalise(self.modules, fingerprint_of) + self.destructured
         for m in self.modules.values():
             m.body_func = FuncInfo(self, m, m.tree, None, None)
             m.body_func.qual = m.name + '.<module>'
